@@ -199,9 +199,9 @@ impl GenConfig {
 }
 
 const THEME_ITEMS: &[&str] = &["bg-color", "text-color", "hops-table-header-bg-color", "info-bar-bg-color", "map-world-color"];
-const COLORS: &[&str] = &["black", "red", "green", "blue", "white", "darkgray", "00ff7f"];
+pub const COLORS: &[&str] = &["black", "red", "green", "blue", "white", "darkgray", "00ff7f"];
 const BINDABLE: &[&str] = &["toggle-help", "next-hop", "toggle-chart", "expand-privacy", "toggle-flows", "quit"];
-const KEYS: &[&str] = &["x", "y", "w", "j", "ctrl+t", "shift+g", "tab", "pagedown"];
+pub const KEYS: &[&str] = &["x", "y", "w", "j", "ctrl+t", "shift+g", "tab", "pagedown"];
 
 /// Draw a configuration: a few options on the command line, a few in the file, values
 /// chosen to be valid together most of the time.
@@ -323,3 +323,84 @@ fn repair(c: &mut GenConfig, tui_bias: bool) {
     }
     // verbose logging is never switched on, so log options have no further constraints
 }
+
+/// The documented default of every theme item (`[theme-colors]` of the sample configuration
+/// file and the reference documentation), pinned here.
+pub const THEME_DEFAULTS: &[(&str, &str)] = &[
+    ("bg-color", "black"),
+    ("border-color", "gray"),
+    ("text-color", "gray"),
+    ("tab-text-color", "green"),
+    ("hops-table-header-bg-color", "white"),
+    ("hops-table-header-text-color", "black"),
+    ("hops-table-row-active-text-color", "gray"),
+    ("hops-table-row-inactive-text-color", "darkgray"),
+    ("hops-chart-selected-color", "green"),
+    ("hops-chart-unselected-color", "gray"),
+    ("hops-chart-axis-color", "darkgray"),
+    ("frequency-chart-bar-color", "green"),
+    ("frequency-chart-text-color", "gray"),
+    ("flows-chart-bar-selected-color", "green"),
+    ("flows-chart-bar-unselected-color", "darkgray"),
+    ("flows-chart-text-current-color", "lightgreen"),
+    ("flows-chart-text-non-current-color", "white"),
+    ("samples-chart-color", "yellow"),
+    ("samples-chart-lost-color", "red"),
+    ("help-dialog-bg-color", "blue"),
+    ("help-dialog-text-color", "gray"),
+    ("settings-dialog-bg-color", "blue"),
+    ("settings-tab-text-color", "green"),
+    ("settings-table-header-text-color", "black"),
+    ("settings-table-header-bg-color", "white"),
+    ("settings-table-row-text-color", "gray"),
+    ("map-world-color", "white"),
+    ("map-radius-color", "yellow"),
+    ("map-selected-color", "green"),
+    ("map-info-panel-border-color", "gray"),
+    ("map-info-panel-bg-color", "black"),
+    ("map-info-panel-text-color", "gray"),
+    ("info-bar-bg-color", "white"),
+    ("info-bar-text-color", "black"),
+];
+
+/// The documented default key of every command (`[bindings]`), pinned here.
+pub const BINDING_DEFAULTS: &[(&str, &str)] = &[
+    ("toggle-help", "h"),
+    ("toggle-help-alt", "?"),
+    ("toggle-settings", "s"),
+    ("toggle-settings-tui", "1"),
+    ("toggle-settings-trace", "2"),
+    ("toggle-settings-dns", "3"),
+    ("toggle-settings-geoip", "4"),
+    ("toggle-settings-bindings", "5"),
+    ("toggle-settings-theme", "6"),
+    ("toggle-settings-columns", "7"),
+    ("next-hop", "down"),
+    ("previous-hop", "up"),
+    ("next-trace", "right"),
+    ("previous-trace", "left"),
+    ("next-hop-address", "."),
+    ("previous-hop-address", ","),
+    ("address-mode-ip", "i"),
+    ("address-mode-host", "n"),
+    ("address-mode-both", "b"),
+    ("toggle-freeze", "ctrl+f"),
+    ("toggle-chart", "c"),
+    ("toggle-map", "m"),
+    ("toggle-flows", "f"),
+    ("expand-privacy", "p"),
+    ("contract-privacy", "o"),
+    ("expand-hosts", "]"),
+    ("expand-hosts-max", "}"),
+    ("contract-hosts", "["),
+    ("contract-hosts-min", "{"),
+    ("chart-zoom-in", "="),
+    ("chart-zoom-out", "-"),
+    ("clear-trace-data", "ctrl+r"),
+    ("clear-dns-cache", "ctrl+k"),
+    ("clear-selection", "esc"),
+    ("toggle-as-info", "z"),
+    ("toggle-hop-details", "d"),
+    ("quit", "q"),
+    ("quit-preserve-screen", "shift+q"),
+];
